@@ -1,9 +1,133 @@
-//! C14: not built yet.
+//! C14: function signatures never miss a register parameter.  One case = random project -> the
+//! registers `compute_function_signatures` reports as parameters of every function.  TLC computes
+//! `MustBeParam` (spec/ParamWalk.tla) and requires MustBeParam(f) ⊆ reported(f).
+//!
+//! Generator class: the stack pointer is never assigned and occurs only in load/store addresses
+//! (`RSP ± c`, incl. callee-saved style spills `Store [RSP-8] := reg`) and stack-argument addresses;
+//! declared extern parameters are plain registers or stack slots; extern symbols that
+//! function_signature/stubs.rs knows (malloc, memcpy) are declared with exactly the stub's arity.
+use crate::irenc;
 use crate::out::Out;
-use serde_json::Value;
+use crate::rng::Rng;
+use crate::walkgen::*;
+use crate::walkrun::run_fn_sigs;
+use cwe_checker_lib::intermediate_representation::*;
+use serde_json::{json, Value};
 
-pub fn gen(_out: &mut Out, _sub: &str) {}
+const REGS: [&str; 10] = ["RDI", "RSI", "RDX", "RCX", "R8", "R9", "RAX", "RBX", "R12", "R10"];
+const PARAMS: [&str; 7] = ["RDI", "RSI", "RDX", "RCX", "R8", "R9", "RBX"];
 
-pub fn replay(_run: &[Value], _sub: &str) -> Vec<Value> {
-    Vec::new()
+fn anyreg(r: &mut Rng) -> Expression {
+    if r.chance(2, 3) { evar(pick_str(r, &PARAMS)) } else { evar(pick_str(r, &REGS)) }
+}
+fn zmm(r: &mut Rng) -> Expression {
+    Expression::Subpiece { low_byte: ByteSize::new(0), size: ByteSize::new(8), arg: Box::new(Expression::Var(var(pick_str(r, &["ZMM0", "ZMM1"]), 64))) }
+}
+fn value(r: &mut Rng) -> Expression {
+    match r.below(8) {
+        0 => econst(r.range(0, 64)),
+        1 | 2 | 3 => anyreg(r),
+        4 => ebin(BinOpType::IntAdd, anyreg(r), econst(r.range(1, 32))),
+        5 => ebin(BinOpType::IntSub, anyreg(r), anyreg(r)),
+        6 => ebin(BinOpType::IntMult, anyreg(r), econst(4)),
+        _ => zmm(r),
+    }
+}
+fn addr(r: &mut Rng) -> Expression {
+    match r.below(5) {
+        0 | 1 => sp_off(8 * r.range(-4, 3)),
+        2 => anyreg(r),
+        _ => ebin(BinOpType::IntAdd, anyreg(r), econst(8 * r.range(0, 4))),
+    }
+}
+fn cmp(r: &mut Rng) -> Expression {
+    let op = *r.pick(&[BinOpType::IntEqual, BinOpType::IntNotEqual, BinOpType::IntLess]);
+    let rhs = if r.chance(1, 2) { econst(0) } else { anyreg(r) };
+    ebin(op, anyreg(r), rhs)
+}
+
+pub struct ParamHooks;
+impl Hooks for ParamHooks {
+    fn defs(&mut self, r: &mut Rng, _ctx: &BlkCtx) -> Vec<Def> {
+        let n = r.below(4);
+        (0..n)
+            .map(|_| match r.below(10) {
+                0..=4 => Def::Assign { var: reg(pick_str(r, &REGS)), value: value(r) },
+                5 => Def::Assign { var: var("ZF", 1), value: cmp(r) },
+                6 | 7 => Def::Load { var: reg(pick_str(r, &REGS)), address: addr(r) },
+                _ => Def::Store { address: addr(r), value: if r.chance(1, 2) { anyreg(r) } else { value(r) } },
+            })
+            .collect()
+    }
+    fn cond(&mut self, r: &mut Rng, _ctx: &BlkCtx) -> Expression {
+        if r.chance(1, 4) { Expression::Var(var("ZF", 1)) } else { cmp(r) }
+    }
+    fn ind_target(&mut self, r: &mut Rng, _ctx: &BlkCtx) -> Expression {
+        anyreg(r)
+    }
+    fn ret_expr(&mut self, r: &mut Rng, _ctx: &BlkCtx) -> Expression {
+        anyreg(r)
+    }
+}
+
+fn externs_c14(r: &mut Rng, two: bool) -> Vec<ExternSymbol> {
+    let pool: Vec<ExternSymbol> = vec![
+        mk_extern("ext0", vec![], vec![reg_arg("RAX")], false, None),
+        mk_extern("ext1", vec![reg_arg("RDI")], vec![reg_arg("RAX")], false, None),
+        mk_extern("ext2", vec![reg_arg("RSI"), reg_arg("RDX")], vec![], false, None),
+        mk_extern("ext3", vec![reg_arg("RDI"), reg_arg("RSI"), reg_arg("RCX")], vec![reg_arg("RAX")], false, None),
+        mk_extern("extstk", vec![Arg::Stack { address: sp_off(8), size: ByteSize::new(8), data_type: None }, reg_arg("R8")], vec![], false, None),
+        mk_extern("die", vec![reg_arg("RDI")], vec![], true, None),
+        mk_extern("memcpy", vec![reg_arg("RDI"), reg_arg("RSI"), reg_arg("RDX")], vec![reg_arg("RAX")], false, None),
+        mk_extern("malloc", vec![reg_arg("RDI")], vec![reg_arg("RAX")], false, None),
+    ];
+    let mut v: Vec<ExternSymbol> = pool.into_iter().filter(|_| r.chance(3, 5)).collect();
+    if two && r.chance(2, 3) {
+        v.push(mk_extern("extalt", vec![reg_arg("RCX"), reg_arg("RBX")], vec![reg_arg("RAX")], false, Some("__fastalt")));
+    }
+    v
+}
+
+fn knobs(two: bool) -> Knobs {
+    Knobs {
+        subs: (1, 3), blocks: (1, 5), w_branch: 16, w_cbranch: 26, w_cbranch_ret: 8, w_return: 16, w_ext_call: 22, w_int_call: 18,
+        w_callind: 5, w_branchind: 4, w_nojump: 1, w_callother: 1, w_single_cbranch: 1, p_no_ret: 8, p_empty_sub: 3, p_forward: 65, p_chain: 0,
+        sub_cconvs: if two { vec!["".to_string(), "__fastalt".to_string()] } else { vec!["".to_string()] },
+    }
+}
+
+pub fn exec(project: &Project) -> Value {
+    let (reported, panic) = match run_fn_sigs(project) {
+        Ok(sigs) => (sigs.into_iter().map(|(f, regs)| json!({"f": f, "regs": regs})).collect::<Vec<_>>(), String::new()),
+        Err(p) => (vec![], p.lines().next().unwrap_or("").to_string()),
+    };
+    json!({"ev": "c14", "project": irenc::project(project), "reported": reported, "panic": panic})
+}
+
+pub fn gen(out: &mut Out, _sub: &str) {
+    let mut rng = Rng::new(out.seed ^ 0xC14);
+    let n = out.size(400, 12_000);
+    let seeds: Vec<Rng> = (0..n).map(|_| rng.fork()).collect();
+    let evs = crate::par::map(seeds, 4, |mut r| {
+        let two = r.chance(1, 2);
+        let externs = externs_c14(&mut r, two);
+        let program = gen_program(&mut r, &knobs(two), &externs, &mut ParamHooks);
+        let project = mk_project(program, if two { vec![cconv_std(), cconv_alt()] } else { vec![cconv_std()] });
+        exec(&project)
+    });
+    let mut total_params = 0u64;
+    for ev in evs {
+        let rep = ev["reported"].as_array().unwrap();
+        let nparams: usize = rep.iter().map(|x| x["regs"].as_array().unwrap().len()).sum();
+        total_params += nparams as u64;
+        // non-trivial: some function has a reported register parameter and some convention
+        // parameter register of some function is NOT reported
+        let nontrivial = nparams >= 1 && rep.iter().any(|x| x["regs"].as_array().unwrap().len() < 3);
+        out.emit(vec![ev], nontrivial);
+    }
+    out.extra.insert("reported_register_parameters".into(), json!(total_params));
+}
+
+pub fn replay(run: &[Value], _sub: &str) -> Vec<Value> {
+    run.iter().map(|e| exec(&dec::project(&e["project"]))).collect()
 }
